@@ -15,7 +15,7 @@ pub fn def() -> PropertyDef {
     PropertyDef {
         id: "C10",
         level: "exploration",
-        rule: "one Unicode string (classes: ASCII, ASCII with ( ) \\ CR LF TAB, Latin-1, WinAnsi-only € “ ”, PDFDoc-only ˘ ˇ, BMP, astral, leading þÿ, empty, > 256 chars) fed to one text-bearing entry point {title, author, subject, keywords, creator, outline title, annotation contents, text-field value at authoring, incremental form fill} under one of three writer configurations. Oracle: the library's reader returns exactly the string (metadata() / PdfString::to_text of the stored string), and the independent reader's text-string decoder (BOM → UTF-16BE, else PDFDocEncoding) decodes the stored bytes to exactly the string. Non-trivial: the value contains a non-ASCII scalar or a delimiter / end-of-line; distinct by hash of (entry point, value, configuration).",
+        rule: "one Unicode string (classes: ASCII, ASCII with ( ) \\ CR LF TAB, Latin-1, WinAnsi-only € “ ”, PDFDoc-only ˘ ˇ, BMP, astral, leading þÿ, empty, > 256 chars) fed to one text-bearing entry point {title, author, subject, keywords, creator, outline title, annotation contents, text-field value at authoring, incremental form fill} under one of four writer configurations (classic, xref stream, uncompressed, object streams). Oracle: the library's reader returns exactly the string (metadata() / PdfString::to_text of the stored string), and the independent reader's text-string decoder (BOM → UTF-16BE, else PDFDocEncoding) decodes the stored bytes to exactly the string. Non-trivial: the value contains a non-ASCII scalar or a delimiter / end-of-line; distinct by hash of (entry point, value, configuration).",
         assumptions: &[
             "the empty string may read back as absent",
             "/Producer is stamped by the library (documented) and is not an entry point here",
@@ -31,13 +31,15 @@ pub fn def() -> PropertyDef {
 pub struct Case {
     pub entry: u8, // 0..=4 info, 5 outline, 6 annotation, 7 field value at authoring, 8 incremental fill
     pub value: String,
-    pub cfg: u8, // 0 classic, 1 xref stream, 2 classic uncompressed
+    pub cfg: u8, // 0 classic, 1 xref stream, 2 classic uncompressed, 3 xref stream + object streams
 }
 
 const ENTRIES: [&str; 9] = ["title", "author", "subject", "keywords", "creator", "outline-title", "annotation-contents", "field-value", "incremental-fill"];
 
 fn cfg_of(c: u8) -> WriterConfig {
-    match c % 3 {
+    match c % 4 {
+        // object streams: the field and annotation dictionaries live inside an object stream (each read costs seconds, ~1 % of the cases)
+        3 => WriterConfig { use_xref_streams: true, use_object_streams: true, pdf_version: "1.5".into(), compress_streams: true, incremental_update: false },
         0 => WriterConfig { use_xref_streams: false, use_object_streams: false, pdf_version: "1.4".into(), compress_streams: true, incremental_update: false },
         1 => WriterConfig { use_xref_streams: true, use_object_streams: false, pdf_version: "1.5".into(), compress_streams: true, incremental_update: false },
         _ => WriterConfig { use_xref_streams: false, use_object_streams: false, pdf_version: "1.7".into(), compress_streams: false, incremental_update: false },
@@ -269,11 +271,11 @@ pub fn value() -> impl Strategy<Value = String> {
 }
 
 fn strategy() -> impl Strategy<Value = Case> {
-    (0u8..9, value(), 0u8..3).prop_map(|(entry, value, cfg)| Case { entry, value, cfg })
+    (0u8..9, value(), prop_oneof![99 => 0u8..3, 1 => Just(3u8)]).prop_map(|(entry, value, cfg)| Case { entry, value, cfg })
 }
 
 fn run(ctx: &Ctx) {
-    ctx.run_sub("entry-points", ctx.tier.pick(4_500, 90_000), strategy, check);
+    ctx.run_sub("entry-points", ctx.tier.pick(15_000, 150_000), strategy, check);
 }
 
 fn replay(ctx: &Ctx, sub: &str, case: &Value) -> Result<Outcome, String> {
